@@ -11,8 +11,9 @@ mod k {
     const RS: u8 = 133;
     const RA: u8 = 134;
     // option types: 1 source-lladdr, 3 prefix, 5 MTU, 25 RDNSS, 31 DNSSL (no decoder arm), 38 PREF64,
-    // 2/24/255 unknown to the decoder.  37 (captive portal) has its own harnesses below.
-    const TYPES: [u8; 9] = [1, 3, 5, 25, 31, 38, 2, 24, 255];
+    // 2 unknown to the decoder (every other unknown type: c05_icmp_any_option_type).  37 (captive portal) has its
+    // own harnesses below.
+    const TYPES: [u8; 7] = [1, 3, 5, 25, 31, 38, 2];
 
     // Build an N-octet message: ICMP type `ty`, code 0, option headers pinned at their running offsets after a
     // header of `hdr` octets: option i has type octet tys[i] and length octet lens[i].  Every length octet the
@@ -74,50 +75,142 @@ mod k {
         }
     }
 
-    /// VERIF: {"p":"C05","tier":"quick","fns":["radv::icmppkt::parse","radv::icmppkt::parse_nd_rtr_solicit","radv::icmppkt::parse_nd_rtr_options","pktparser::Buffer::{get_u8,get_be16,get_be32,get_bytes}"],"bounds":"router solicitation (type 133, code 0, checksum/reserved symbolic) + ONE option: option type in {1,3,5,25,31,38,2,24,255}, option length octet in {0,1,2,3,4,5}, message length = exact fit and one octet short; all payload octets symbolic","oracle":"Ok or Err, no panic/overflow/out-of-bounds; zero-length and overrunning options rejected","covers":2,"unwind":20}
+    /// VERIF: {"p":"C05","tier":"quick","fns":["radv::icmppkt::parse","radv::icmppkt::parse_nd_rtr_solicit","radv::icmppkt::parse_nd_rtr_options","pktparser::Buffer::{get_u8,get_be16,get_be32,get_bytes}"],"bounds":"router solicitation (type 133, code 0, checksum/reserved symbolic) + ONE option with length octet 0: option type each of {1,3,5,25,31,38,2}, message length 16 (room for 8 octets) and 10 (option header only); all payload octets symbolic","oracle":"Ok or Err, no panic/overflow/out-of-bounds; zero-length and overrunning options rejected; at most one option decoded","covers":1,"unwind":20}
     #[kani::proof]
     #[kani::unwind(20)]
-    fn c05_icmp_rs_one_option() {
+    fn c05_icmp_rs_opt_len0() {
         let mut acc = (0u32, 0u32);
-        match kani::any::<u8>() {
-            0 => one_opt::<16>(RS, 8, 0, &mut acc),
-            1 => one_opt::<10>(RS, 8, 0, &mut acc),
-            2 => one_opt::<16>(RS, 8, 1, &mut acc),
-            3 => one_opt::<15>(RS, 8, 1, &mut acc),
-            4 => one_opt::<24>(RS, 8, 2, &mut acc),
-            5 => one_opt::<23>(RS, 8, 2, &mut acc),
-            6 => one_opt::<32>(RS, 8, 3, &mut acc),
-            7 => one_opt::<31>(RS, 8, 3, &mut acc),
-            8 => one_opt::<40>(RS, 8, 4, &mut acc),
-            9 => one_opt::<39>(RS, 8, 4, &mut acc),
-            10 => one_opt::<48>(RS, 8, 5, &mut acc),
-            _ => one_opt::<47>(RS, 8, 5, &mut acc),
+        if kani::any() {
+            one_opt::<16>(RS, 8, 0, &mut acc);
+        } else {
+            one_opt::<10>(RS, 8, 0, &mut acc);
         }
-        kani::cover!(acc.0 > 0, "accepted");
         kani::cover!(acc.1 > 0, "rejected");
     }
 
-    /// VERIF: {"p":"C05","tier":"quick","fns":["radv::icmppkt::parse","radv::icmppkt::parse_nd_rtr_advert","radv::icmppkt::parse_nd_rtr_options","pktparser::Buffer::{get_u8,get_be16,get_be32,get_bytes}"],"bounds":"router advertisement (type 134, code 0, all 14 other header octets symbolic) + ONE option: option type in {1,3,5,25,31,38,2,24,255}, option length octet in {0,1,2,3,4,5}, message length = exact fit and one octet short; all payload octets symbolic","oracle":"Ok or Err, no panic/overflow/out-of-bounds; zero-length and overrunning options rejected","covers":2,"unwind":20}
+    /// VERIF: {"p":"C05","tier":"quick","fns":["radv::icmppkt::parse","radv::icmppkt::parse_nd_rtr_solicit","radv::icmppkt::parse_nd_rtr_options","pktparser::Buffer::{get_u8,get_be16,get_be32,get_bytes}"],"bounds":"router solicitation (type 133, code 0, checksum/reserved symbolic) + ONE option with length octet 1: option type each of {1,3,5,25,31,38,2}, message length 16 (exact fit) and 15 (one octet short); all payload octets symbolic","oracle":"Ok or Err, no panic/overflow/out-of-bounds; zero-length and overrunning options rejected; at most one option decoded","covers":2,"unwind":20}
     #[kani::proof]
     #[kani::unwind(20)]
-    fn c05_icmp_ra_one_option() {
+    fn c05_icmp_rs_opt_len1() {
         let mut acc = (0u32, 0u32);
-        match kani::any::<u8>() {
-            0 => one_opt::<24>(RA, 16, 0, &mut acc),
-            1 => one_opt::<18>(RA, 16, 0, &mut acc),
-            2 => one_opt::<24>(RA, 16, 1, &mut acc),
-            3 => one_opt::<23>(RA, 16, 1, &mut acc),
-            4 => one_opt::<32>(RA, 16, 2, &mut acc),
-            5 => one_opt::<31>(RA, 16, 2, &mut acc),
-            6 => one_opt::<40>(RA, 16, 3, &mut acc),
-            7 => one_opt::<39>(RA, 16, 3, &mut acc),
-            8 => one_opt::<48>(RA, 16, 4, &mut acc),
-            9 => one_opt::<47>(RA, 16, 4, &mut acc),
-            10 => one_opt::<56>(RA, 16, 5, &mut acc),
-            _ => one_opt::<55>(RA, 16, 5, &mut acc),
+        if kani::any() {
+            one_opt::<16>(RS, 8, 1, &mut acc);
+        } else {
+            one_opt::<15>(RS, 8, 1, &mut acc);
         }
-        kani::cover!(acc.0 > 0, "accepted");
         kani::cover!(acc.1 > 0, "rejected");
+        kani::cover!(acc.0 > 0, "accepted");
+    }
+
+    /// VERIF: {"p":"C05","tier":"quick","fns":["radv::icmppkt::parse","radv::icmppkt::parse_nd_rtr_solicit","radv::icmppkt::parse_nd_rtr_options","pktparser::Buffer::{get_u8,get_be16,get_be32,get_bytes}"],"bounds":"router solicitation (type 133, code 0, checksum/reserved symbolic) + ONE option with length octet 2: option type each of {1,3,5,25,31,38,2}, message length 24 (exact fit) and 23 (one octet short); all payload octets symbolic","oracle":"Ok or Err, no panic/overflow/out-of-bounds; zero-length and overrunning options rejected; at most one option decoded","covers":2,"unwind":20}
+    #[kani::proof]
+    #[kani::unwind(20)]
+    fn c05_icmp_rs_opt_len2() {
+        let mut acc = (0u32, 0u32);
+        if kani::any() {
+            one_opt::<24>(RS, 8, 2, &mut acc);
+        } else {
+            one_opt::<23>(RS, 8, 2, &mut acc);
+        }
+        kani::cover!(acc.1 > 0, "rejected");
+        kani::cover!(acc.0 > 0, "accepted");
+    }
+
+    /// VERIF: {"p":"C05","tier":"quick","fns":["radv::icmppkt::parse","radv::icmppkt::parse_nd_rtr_solicit","radv::icmppkt::parse_nd_rtr_options","pktparser::Buffer::{get_u8,get_be16,get_be32,get_bytes}"],"bounds":"router solicitation (type 133, code 0, checksum/reserved symbolic) + ONE option with length octet 3: option type each of {1,3,5,25,31,38,2}, message length 32 (exact fit) and 31 (one octet short); all payload octets symbolic","oracle":"Ok or Err, no panic/overflow/out-of-bounds; zero-length and overrunning options rejected; at most one option decoded","covers":2,"unwind":20}
+    #[kani::proof]
+    #[kani::unwind(20)]
+    fn c05_icmp_rs_opt_len3() {
+        let mut acc = (0u32, 0u32);
+        if kani::any() {
+            one_opt::<32>(RS, 8, 3, &mut acc);
+        } else {
+            one_opt::<31>(RS, 8, 3, &mut acc);
+        }
+        kani::cover!(acc.1 > 0, "rejected");
+        kani::cover!(acc.0 > 0, "accepted");
+    }
+
+    /// VERIF: {"p":"C05","tier":"quick","fns":["radv::icmppkt::parse","radv::icmppkt::parse_nd_rtr_solicit","radv::icmppkt::parse_nd_rtr_options","pktparser::Buffer::{get_u8,get_be16,get_be32,get_bytes}"],"bounds":"router solicitation (type 133, code 0, checksum/reserved symbolic) + ONE option with length octet 4: option type each of {1,3,5,25,31,38,2}, message length 40 (exact fit) and 39 (one octet short); all payload octets symbolic","oracle":"Ok or Err, no panic/overflow/out-of-bounds; zero-length and overrunning options rejected; at most one option decoded","covers":2,"unwind":20}
+    #[kani::proof]
+    #[kani::unwind(20)]
+    fn c05_icmp_rs_opt_len4() {
+        let mut acc = (0u32, 0u32);
+        if kani::any() {
+            one_opt::<40>(RS, 8, 4, &mut acc);
+        } else {
+            one_opt::<39>(RS, 8, 4, &mut acc);
+        }
+        kani::cover!(acc.1 > 0, "rejected");
+        kani::cover!(acc.0 > 0, "accepted");
+    }
+
+    /// VERIF: {"p":"C05","tier":"quick","fns":["radv::icmppkt::parse","radv::icmppkt::parse_nd_rtr_solicit","radv::icmppkt::parse_nd_rtr_options","pktparser::Buffer::{get_u8,get_be16,get_be32,get_bytes}"],"bounds":"router solicitation (type 133, code 0, checksum/reserved symbolic) + ONE option with length octet 5: option type each of {1,3,5,25,31,38,2}, message length 48 (exact fit) and 47 (one octet short); all payload octets symbolic","oracle":"Ok or Err, no panic/overflow/out-of-bounds; zero-length and overrunning options rejected; at most one option decoded","covers":2,"unwind":20}
+    #[kani::proof]
+    #[kani::unwind(20)]
+    fn c05_icmp_rs_opt_len5() {
+        let mut acc = (0u32, 0u32);
+        if kani::any() {
+            one_opt::<48>(RS, 8, 5, &mut acc);
+        } else {
+            one_opt::<47>(RS, 8, 5, &mut acc);
+        }
+        kani::cover!(acc.1 > 0, "rejected");
+        kani::cover!(acc.0 > 0, "accepted");
+    }
+
+    /// VERIF: {"p":"C05","tier":"quick","fns":["radv::icmppkt::parse","radv::icmppkt::parse_nd_rtr_advert","radv::icmppkt::parse_nd_rtr_options","pktparser::Buffer::{get_u8,get_be16,get_be32,get_bytes}"],"bounds":"router advertisement (type 134, code 0, the 14 other header octets symbolic) + ONE option with length octet 0: option type each of {1,3,5,25,31,38,2}, message length 24 (room for 8 octets) and 18 (option header only); all payload octets symbolic","oracle":"Ok or Err, no panic/overflow/out-of-bounds; zero-length and overrunning options rejected; at most one option decoded","covers":1,"unwind":20}
+    #[kani::proof]
+    #[kani::unwind(20)]
+    fn c05_icmp_ra_opt_len0() {
+        let mut acc = (0u32, 0u32);
+        if kani::any() {
+            one_opt::<24>(RA, 16, 0, &mut acc);
+        } else {
+            one_opt::<18>(RA, 16, 0, &mut acc);
+        }
+        kani::cover!(acc.1 > 0, "rejected");
+    }
+
+    /// VERIF: {"p":"C05","tier":"quick","fns":["radv::icmppkt::parse","radv::icmppkt::parse_nd_rtr_advert","radv::icmppkt::parse_nd_rtr_options","pktparser::Buffer::{get_u8,get_be16,get_be32,get_bytes}"],"bounds":"router advertisement (type 134, code 0, the 14 other header octets symbolic) + ONE option with length octet 1: option type each of {1,3,5,25,31,38,2}, message length 24 (exact fit) and 23 (one octet short); all payload octets symbolic","oracle":"Ok or Err, no panic/overflow/out-of-bounds; zero-length and overrunning options rejected; at most one option decoded","covers":2,"unwind":20}
+    #[kani::proof]
+    #[kani::unwind(20)]
+    fn c05_icmp_ra_opt_len1() {
+        let mut acc = (0u32, 0u32);
+        if kani::any() {
+            one_opt::<24>(RA, 16, 1, &mut acc);
+        } else {
+            one_opt::<23>(RA, 16, 1, &mut acc);
+        }
+        kani::cover!(acc.1 > 0, "rejected");
+        kani::cover!(acc.0 > 0, "accepted");
+    }
+
+    /// VERIF: {"p":"C05","tier":"quick","fns":["radv::icmppkt::parse","radv::icmppkt::parse_nd_rtr_advert","radv::icmppkt::parse_nd_rtr_options","pktparser::Buffer::{get_u8,get_be16,get_be32,get_bytes}"],"bounds":"router advertisement (type 134, code 0, the 14 other header octets symbolic) + ONE option with length octet 2: option type each of {1,3,5,25,31,38,2}, message length 32 (exact fit) and 31 (one octet short); all payload octets symbolic","oracle":"Ok or Err, no panic/overflow/out-of-bounds; zero-length and overrunning options rejected; at most one option decoded","covers":2,"unwind":20}
+    #[kani::proof]
+    #[kani::unwind(20)]
+    fn c05_icmp_ra_opt_len2() {
+        let mut acc = (0u32, 0u32);
+        if kani::any() {
+            one_opt::<32>(RA, 16, 2, &mut acc);
+        } else {
+            one_opt::<31>(RA, 16, 2, &mut acc);
+        }
+        kani::cover!(acc.1 > 0, "rejected");
+        kani::cover!(acc.0 > 0, "accepted");
+    }
+
+    /// VERIF: {"p":"C05","tier":"quick","fns":["radv::icmppkt::parse","radv::icmppkt::parse_nd_rtr_advert","radv::icmppkt::parse_nd_rtr_options","pktparser::Buffer::{get_u8,get_be16,get_be32,get_bytes}"],"bounds":"router advertisement (type 134, code 0, the 14 other header octets symbolic) + ONE option with length octet 4: option type each of {1,3,5,25,31,38,2}, message length 48 (exact fit) and 47 (one octet short); all payload octets symbolic","oracle":"Ok or Err, no panic/overflow/out-of-bounds; zero-length and overrunning options rejected; at most one option decoded","covers":2,"unwind":20}
+    #[kani::proof]
+    #[kani::unwind(20)]
+    fn c05_icmp_ra_opt_len4() {
+        let mut acc = (0u32, 0u32);
+        if kani::any() {
+            one_opt::<48>(RA, 16, 4, &mut acc);
+        } else {
+            one_opt::<47>(RA, 16, 4, &mut acc);
+        }
+        kani::cover!(acc.1 > 0, "rejected");
+        kani::cover!(acc.0 > 0, "accepted");
     }
 
     // two consecutive options (t1,l1),(t2,l2)
